@@ -636,7 +636,8 @@ class Converter:
         """Translation of an expression where "None" is permitted (eg., for an optional argument).
         None is represented as a Constant in Python 3.9+.
         """
-        if isinstance(node, ast.Constant) and (node.value is None):
+        if node is None or (isinstance(node, ast.Constant) and (node.value is None)):
+            # (None: the position of an omitted optional input)
             return None
         return self._translate_expr(node)
 
